@@ -77,9 +77,14 @@ pub open spec fn stmt_image(s: Stmt, o: Seq<Stmt>) -> bool
         Stmt::Return { expr } => o.len() == 1 && o[0] == (Stmt::Return { expr: dce_oe(expr) }),
         Stmt::Break => o.len() == 1 && o[0] == Stmt::Break,
         Stmt::Loop { body } => o.len() == 1 && (o[0] matches Stmt::Loop { body: b2 } && aligned(body.stmts@, 0, b2.stmts@, 0)),
-        Stmt::If { cond, then, else_ } => o.len() == 1 && (o[0] matches Stmt::If { cond: c2, then: t2, else_: e2 }
-            && c2 == dce_e(cond) && aligned(then.stmts@, 0, t2.stmts@, 0)
-            && (else_ is Some <==> e2 is Some) && (else_ is Some ==> aligned(else_->0.stmts@, 0, e2->0.stmts@, 0))),
+        // an `if` stays, with DCE applied inside — or vanishes as a whole, but only if its condition CANNOT have an effect and nothing of either branch remains
+        Stmt::If { cond, then, else_ } => {
+            ||| (o.len() == 1 && (o[0] matches Stmt::If { cond: c2, then: t2, else_: e2 }
+                && c2 == dce_e(cond) && aligned(then.stmts@, 0, t2.stmts@, 0)
+                && (else_ is Some <==> e2 is Some) && (else_ is Some ==> aligned(else_->0.stmts@, 0, e2->0.stmts@, 0))))
+            ||| (o.len() == 0 && !expr_may_effect(dce_e(cond)) && aligned(then.stmts@, 0, Seq::<Stmt>::empty(), 0)
+                && (else_ is Some ==> aligned(else_->0.stmts@, 0, Seq::<Stmt>::empty(), 0)))
+        }
         Stmt::SwitchExpr { expr, cases, default } => o.len() == 1 && (o[0] matches Stmt::SwitchExpr { expr: x2, cases: c2, default: d2 }
             && x2 == dce_e(expr) && c2@.len() == cases@.len()
             && (forall|i: int| 0 <= i < cases@.len() ==> (#[trigger] c2@[i]).0 == dce_e(cases@[i].0) && aligned(cases@[i].1.stmts@, 0, c2@[i].1.stmts@, 0))
@@ -102,6 +107,13 @@ pub open spec fn aligned(ins: Seq<Stmt>, i: int, outs: Seq<Stmt>, j: int) -> boo
         ||| (j + 1 <= outs.len() && stmt_image(ins[i], outs.subrange(j, j + 1)) && aligned(ins, i + 1, outs, j + 1))
         ||| (j + 2 <= outs.len() && stmt_image(ins[i], outs.subrange(j, j + 2)) && aligned(ins, i + 1, outs, j + 2))
     }
+}
+// an alignment with an output of length 0 is an alignment with THE empty sequence (extensionality; broadcast inside dce_block_with_live)
+pub broadcast proof fn lemma_aligned_empty(ins: Seq<Stmt>, i: int, a: Seq<Stmt>, j: int)
+    requires #[trigger] aligned(ins, i, a, j), a.len() == 0,
+    ensures aligned(ins, i, Seq::<Stmt>::empty(), j),
+{
+    assert(a =~= Seq::<Stmt>::empty());
 }
 // putting statements in front of the output shifts an alignment
 pub proof fn lemma_aligned_shift(ins: Seq<Stmt>, i: int, outs: Seq<Stmt>, j: int, pre: Seq<Stmt>)
